@@ -24,7 +24,9 @@ LEVEL_TEXT = (
 )
 LEVEL_NOTE = (
     "Trusted: lstsq(H, r) is a least-squares solve, func.jacfwd(f)(x) is the Jacobian of f at x, flow.while_loop semantics. "
-    "Feasibility/optimality of the returned point and exactness for affine constraints after one iteration need lstsq semantics and are not decided."
+    "Given the trusted lstsq axiom (H y = r is solved whenever it is consistent, with y in range(H^T)), the three identities of R-C19-1 imply "
+    "f(x) + J (x+ - x) = r - H y = 0 and x+ - m = -L y in range(C J^T): the linearised constraint holds at x+, hence exactness after one iteration for affine "
+    "constraints and the Gaussian conditional mean m - C J^T (J C J^T)^-1 (J m + b).  Feasibility for nonlinear constraints within the budget is a convergence statement and is not decided."
 )
 
 
